@@ -48,7 +48,8 @@ def main(run):
     # any two sets of values (vertical grid, profiles, domain, measurement point, halo, background).
     from . import C15
 
-    sks = [sk for sk in C15.skeletons("quick") if sk["shape"] == (4, 6) and sk["precision"] == "double" and not sk.get("halo_zero")]
+    # (requests of different series share the persistent cache directory: default halo, explicit halo and halo = 0 classes)
+    sks = [sk for sk in C15.skeletons("quick") if sk["shape"] == (4, 6) and sk["precision"] == "double"]
     if not quick:
         sks = C15.skeletons("quick")
     run.assumptions.append("cache part: assumptions of C15 part (a) (SHA-256 collision-free, tobytes = values)")
